@@ -146,5 +146,7 @@ def build(tier, seed):
     thorough = tier == 'thorough'
     obs = []
     for mname in MODELS:
+        if 'C04' in MODELS[mname].get('skip', ()):
+            continue
         obs += history_obs(mname, 4 if thorough else 3, 1800 if thorough else 900)
     return obs
